@@ -1,5 +1,6 @@
 import CoapVerif.Model.BlockCrcv
 import CoapVerif.Model.BlockXmit
+import CoapVerif.Model.BlockTok
 /-
 The COMPOSED Block2 system: a libcoap server sending a body (application handler + `coap_add_data_large_response` →
 `adlBody` for the first block, `xmitB2Step` = coap_handle_request_send_block for the others), a lossy, duplicating,
@@ -39,7 +40,11 @@ structure B2Sys where
 inductive B2Event where
   | appGet (szx : Nat)          -- the client application sends the GET (Block2 (0, 0, szx))
   | reqArrives (i : Nat)        -- request datagram i reaches the server (again)
-  | rspArrives (j : Nat)        -- response datagram j reaches the client (again)
+  | rspArrives (j : Nat) (sent : Bool)
+                                -- response datagram j reaches the client (again); `sent` = coap_dispatch matched it (by message
+                                -- id) to a Confirmable request that is still in the send queue — the `sent` argument of
+                                -- coap_handle_response_get_block is non-NULL (`crcvStepS`, Model/BlockTok.lean).  The schedule
+                                -- chooses the flag freely: every behaviour of the message layer is covered
   | srvExpire                   -- the lg_xmit times out
   | cliExpire                   -- the lg_crcv times out
   | cliNew                      -- coap_send() sets up a fresh lg_crcv for the token (NON request / Observe), replacing any old one
@@ -82,10 +87,10 @@ def b2Step (P : B2Par) (s : B2Sys) : B2Event → B2Sys
     match s.reqs[i]? with
     | some (num, szx) => srvOnReq P s num szx
     | none => s
-  | .rspArrives j =>
+  | .rspArrives j sent =>
     match s.rsps[j]? with
     | some r =>
-      let res := crcvStep P.single P.cap P.junk s.cli r
+      let res := crcvStepS sent P.single P.cap P.junk s.cli r
       { s with cli := res.1, outs := s.outs ++ [res.2],
                reqs := s.reqs ++ (match nextReq res.2 with | some q => [q] | none => []) }
     | none => s
